@@ -295,8 +295,8 @@ class Body:
         if self._defs is None:
             d = {}
             for i, b in enumerate(self.blocks):
-                if b["cleanup"]:
-                    continue
+                if b["cleanup"] or i not in self.reach:
+                    continue            # (flattening leaves the replaced call chains behind as dead blocks)
                 for j, st in enumerate(b["stmts"]):
                     if st["k"] == "assign":
                         d.setdefault(st["lhs"]["l"], []).append(("stmt", i, j, st))
